@@ -703,6 +703,52 @@ func c13Std(c *Config, ic *IC, r *Report, stdlibPk *packages.Package, tb map[str
 		for _, b := range bodies {
 			scan(b)
 		}
+		// the virtual environment has one source of truth, the interpreter's env map: the
+		// override reads and writes no other variable that some closure of fixStdlib assigns
+		// (a listing cached beside the map goes stale when another override changes the map)
+		if fi := ic.F["fixStdlib"]; fi != nil {
+			written := map[types.Object]bool{}
+			ast.Inspect(fi.Decl.Body, func(k ast.Node) bool {
+				fl, ok := k.(*ast.FuncLit)
+				if !ok {
+					return true
+				}
+				ast.Inspect(fl.Body, func(m ast.Node) bool {
+					switch x := m.(type) {
+					case *ast.AssignStmt:
+						for _, l := range x.Lhs {
+							if id, ok := unparen(l).(*ast.Ident); ok {
+								if v, ok := ic.Info.ObjectOf(id).(*types.Var); ok && v.Pos() >= fi.Decl.Body.Pos() && (v.Pos() < fl.Pos() || v.Pos() > fl.End()) {
+									written[v] = true
+								}
+							}
+						}
+					case *ast.IncDecStmt:
+						if id, ok := unparen(x.X).(*ast.Ident); ok {
+							if v, ok := ic.Info.ObjectOf(id).(*types.Var); ok && v.Pos() >= fi.Decl.Body.Pos() && (v.Pos() < fl.Pos() || v.Pos() > fl.End()) {
+								written[v] = true
+							}
+						}
+					}
+					return true
+				})
+				return true
+			})
+			var state []string
+			for _, b := range bodies {
+				ast.Inspect(b, func(m ast.Node) bool {
+					if id, ok := m.(*ast.Ident); ok {
+						if v, ok := ic.Info.Uses[id].(*types.Var); ok && written[v] {
+							state = append(state, v.Name())
+						}
+					}
+					return true
+				})
+			}
+			state = dedupStr(state)
+			r.Check(len(state) == 0, "R13.4", key+"/env-map-only", ic.pos(o.stmt.Pos()), "keeps no state beside the interpreter's env map",
+				"the override of os."+name+" reads or writes "+strings.Join(state, ", ")+", a variable of fixStdlib assigned by the override closures: the virtual environment then has a second copy beside interp.env, which the other overrides do not all keep up to date (Setenv of an existing name, then Environ, shows the old value)")
+		}
 		r.Check(len(leaks) == 0 && touchesEnv, "R13.4", key, ic.pos(o.stmt.Pos()), "overridden by a closure over the interpreter's env map only",
 			"the override of os."+name+" "+map[bool]string{true: "refers to " + strings.Join(leaks, ", "), false: "does not use the interpreter's env map"}[len(leaks) > 0]+": the host environment is reachable from a restricted script")
 	}
